@@ -85,7 +85,7 @@ func main() {
 	r.Count("exhaustive.one-column-sets", smallSets)
 
 	// ---- random range sets over 1..3 columns ----
-	nsets := r.N(30000, 1000000)
+	nsets := r.N(30000, 500000)
 	var done int64
 	r.Parallel("sets", nsets, func(i int) {
 		rnd := r.Rand("sets", i)
@@ -135,7 +135,7 @@ func main() {
 	r.Count("sets.completed", done)
 
 	// ---- interval tree histories ----
-	nh := r.N(3000, 100000)
+	nh := r.N(3000, 50000)
 	var hdone int64
 	r.Parallel("tree", nh, func(i int) {
 		rnd := r.Rand("tree", i)
